@@ -1,6 +1,6 @@
 (* C12 — Routes track peers: exactly the announced claims, nothing for the disconnected.
    Table half; the node half (every peer-removal path calls remove_claims) is in Node/NodeProofs. *)
-From VpnModel Require Import Base RangeMatch Table TableProofs.
+From VpnModel Require Import Base RangeMatch Table TableProofs Nonce Replay Core Conn PeerCrypto NodeInfo Node NodeProofs RoutesProofs.
 
 (* T1: after set_claims the ranges attributed to the peer are exactly the announced ones, all with a
    fresh expiry; live entries of other peers untouched; if any claim of the peer was dropped all its
@@ -32,6 +32,38 @@ Theorem C12_remove_clean : forall t now peer, (0 < now)%Z ->
   (forall e, e_peer e <> peer -> (In e (cache t') <-> (In e (cache t) /\ (now <= e_timeout e)%Z))).
 Proof. exact remove_claims_clean. Qed.
 
+(* T3 (node half): every path on which a node drops a peer drops the peer's routes in the same step.
+   no_routes n a = a is not a peer, no claim and no cached/learned address points at a. *)
+(* (a) the peer's timeout passed: housekeeping's expiry phase *)
+Theorem C12_expired_peer_routes_removed : forall salts now n addr pd, (0 < now)%Z ->
+  aget (n_peers n) addr = Some pd -> (p_timeout pd < now)%Z ->
+  aget (n_peers (fst (expire_phase salts now n))) addr = None /\
+  (forall c, In c (claims (n_table (fst (expire_phase salts now n)))) -> c_peer c <> addr) /\
+  (forall e, In e (cache (n_table (fst (expire_phase salts now n)))) -> e_peer e <> addr).
+Proof. exact expired_peers_removed. Qed.
+
+(* (b) the peer sent CLOSE *)
+Theorem C12_closed_peer_routes_removed : forall salts now n src body reply, (0 < now)%Z ->
+  no_routes (fst (handle_result salts now n src (MMessage MESSAGE_TYPE_CLOSE body) reply)) src \/
+  (aget (n_peers n) src = None /\ fst (handle_result salts now n src (MMessage MESSAGE_TYPE_CLOSE body) reply) = n).
+Proof. exact close_removes_routes. Qed.
+
+(* (c) the peer's connection object failed in the crypto housekeeping (after the fix of F4);
+   crypto_housekeep ends with remove_failed on the failed addresses (C12_crypto_housekeep_shape) *)
+Theorem C12_failed_peer_routes_removed : forall salts now del m fx addr, (0 < now)%Z ->
+  In addr del -> ahas (n_peers m) addr = true ->
+  no_routes (fst (remove_failed salts now del (m, fx))) addr.
+Proof. exact failed_peer_routes_removed. Qed.
+
+Theorem C12_crypto_housekeep_shape : forall salts now n,
+  crypto_housekeep salts now n =
+  let '(n1, fx1, del1) := tick_pending n in
+  let '(n2, fx2, del2) := tick_peers n1 in
+  remove_failed salts now del2
+    (fold_left (fun m addr => upd m (n_peers m) (adel (n_pending m) addr) (n_own m) (n_table m)) del1 n2, fx1 ++ fx2).
+Proof. exact crypto_housekeep_shape. Qed.
+
+
 Example C12_ex_shrink :
   let t := table_set_claims (table_new 300 300) 5 1 [([10;0;0;0], 8); ([10;1;0;0], 16)] in
   map crange (claims (table_set_claims t 6 1 [([10;0;0;0], 8)])) = [([10;0;0;0], 8)].
@@ -40,3 +72,7 @@ Proof. exact set_claims_shrink. Qed.
 Print Assumptions C12_set_claims_exact.
 Print Assumptions C12_expire.
 Print Assumptions C12_remove_clean.
+Print Assumptions C12_expired_peer_routes_removed.
+Print Assumptions C12_closed_peer_routes_removed.
+Print Assumptions C12_failed_peer_routes_removed.
+Print Assumptions C12_crypto_housekeep_shape.
